@@ -267,6 +267,17 @@ CUSTOM_CLASSES = []   # forwarding custom schema classes registered by harness.c
 
 
 def enc_schema(s, I):
+    """a schema object in a state no declaration can produce (a bytes schema pinned to an int, junk where a member schema
+    should be …) is outside the modelled universe: Unencodable, never a crash of the harness"""
+    try:
+        return _enc_schema(s, I)
+    except (Unencodable, RecursionError):
+        raise
+    except Exception as e:  # noqa: BLE001
+        raise Unencodable("malformed schema object (%s: %s)" % (type(e).__name__, str(e)[:80]))
+
+
+def _enc_schema(s, I):
     t = type(s)
     p = s.props
     if t in CUSTOM_CLASSES:
